@@ -16,6 +16,7 @@ import (
 	"sort"
 	"strconv"
 	"strings"
+	"sync"
 	"time"
 
 	"gosx/sx"
@@ -324,14 +325,31 @@ func cmdCheck(args []string) int {
 	fmt.Printf("gosx: loaded %d packages (SSA built from %s working tree) in %.1fs\n", len(eng.Pkgs), repoDir, eng.LoadTime.Seconds())
 
 	rep := newReport(prop, *tier, seed)
-	for _, d := range defs {
-		h := d.H
-		h.Thorough = *tier == "thorough"
-		if *tier == "thorough" && h.TimeoutMs == 0 {
-			h.TimeoutMs = 60000
-		}
-		res := eng.Explore(&h, *workers)
-		rep.add(d, res, *verbose)
+	// harnesses run concurrently; each gets a share of the workers
+	results := make([]*sx.Result, len(defs))
+	per := *workers / len(defs)
+	if per < 2 {
+		per = 2
+	}
+	sem := make(chan struct{}, (*workers+per-1)/per)
+	var wg sync.WaitGroup
+	for i, d := range defs {
+		wg.Add(1)
+		go func(i int, d *HarnessDef) {
+			defer wg.Done()
+			sem <- struct{}{}
+			defer func() { <-sem }()
+			h := d.H
+			h.Thorough = *tier == "thorough"
+			if *tier == "thorough" && h.TimeoutMs == 0 {
+				h.TimeoutMs = 60000
+			}
+			results[i] = eng.Explore(&h, per)
+		}(i, d)
+	}
+	wg.Wait()
+	for i, d := range defs {
+		rep.add(d, results[i], *verbose)
 	}
 	if !*noNative {
 		rep.native(nativeOverlay, scratch)
